@@ -226,7 +226,7 @@ def write_evidence(pid, prop, tier, seed, outcomes, violations, known_hits, unde
                     samples.append(dict(obligation="V:" + f["function"], discharged=f["ok"], backend="verus/z3", smt_ms=round(f["ms"], 1)))
     assumed = sorted(set(assumed))
     trusted = list(prop.get("trusted_base", [])) + [
-        "rustc + Verus 0.2026.09.13 + z3 (Verus' bundled)", "extractor rewrite rules R1-R7 (DESIGN.md 3.1)",
+        "rustc + Verus 0.2026.09.13 + z3 (Verus' bundled)", "extractor rewrite rules R1-R10 (DESIGN.md A.1)",
         "prelude: assumed contracts on ndarray / num-traits / std (contracts/prelude/prelude.rs)"]
     cov = dict(
         obligations=obligations, discharged=discharged,
